@@ -111,7 +111,7 @@ def _replay_one(job):
     segs = [e for e in res.events if e.get("ev") == "seg"]
     # in a known-finding world the implementation-shaped model predicts the ORDER in which the flight's records are handed on: the run is
     # attributed to the finding only if the release events show exactly that order (anything else is a different violation)
-    sch = sc["conns"][0]["sched"]
+    sch = sc["conns"][0].get("sched") or {}
     as_model = None
     if kf and sch.get("released") is not None and not sch.get("garbage"):
         d = sch["dir"]
@@ -201,13 +201,35 @@ def run(chk):
             if sc is not None and kfs:
                 jobs.append((sc, kfs))
     chk.extra["midgap_behaviours_replayed"] = nmid
+    # 4b. bulk and long connections (the scaled model says "for every stream"; sizes the cells cannot reach are concretized directly):
+    #     16 KiB records cut at MSS size with segments spanning record boundaries (tens of kilobytes pending between two boundaries that
+    #     coincide with a segment end), and a stream of > 1500 one-byte segments with an exact duplicate of an early segment near the end
+    from harness.tlsrun import build_conn
+    from wire.capture import segment as _segment
+    for i in range(4 if quick else 40):
+        ver, suite = KINDS[(i * 3) % len(KINDS)]
+        cd = dict(ver=ver, suite=suite, seed=rng.randrange(1 << 30), shape={}, flow=dict(ipv=rng.choice([4, 6])),
+                  app=[["c", 100], ["s", 16384], ["s", 16384], ["s", rng.choice([16384, 9000])], ["c", 50], ["s", 16384], ["s", 777]],
+                  cuts={"c": "flight", "s": "flight"}, mss=rng.choice([1448, 1200, 536, 1460]))
+        cd["sched_free"] = True
+        jobs.append((dict(conns=[cd]), []))
+    for i in range(2 if quick else 12):
+        ver, suite = KINDS[(i * 5 + 1) % len(KINDS)]
+        cd = dict(ver=ver, suite=suite, seed=rng.randrange(1 << 30), shape={}, app=[["c", 30], ["s", 1400], ["s", 600], ["c", 10]])
+        c0 = build_conn(cd)
+        cd["cuts"] = {"c": "flight", "s": list(range(1, len(c0.stream("s"))))}           # the server's stream byte by byte
+        n = len(_segment(c0, 0, cuts=cd["cuts"]))
+        first_s = next(k for k, sg in enumerate(_segment(c0, 0, cuts=cd["cuts"])) if sg.d == "s")
+        cd["perturb"] = [("dup", first_s + rng.randint(5, 40), n - rng.randint(20, 200))]
+        cd["sched_free"] = True
+        jobs.append((dict(conns=[cd]), []))
     results = pool_map(_replay_one, jobs)
     traces = []
     for r in results:
         if "machinery" in r:
             raise Exception("replay failed in the harness: " + r["machinery"])
         chk.evaluations += 1
-        sch = r["sc"]["conns"][0]["sched"]
+        sch = r["sc"]["conns"][0].get("sched") or dict(cells=["bulk", r["sc"]["conns"][0].get("mss"), r["sc"]["conns"][0]["seed"]], hist=r["sc"]["conns"][0].get("perturb") or [])
         chk.distinct.add(json.dumps([sch["cells"], sch["hist"]]))
         if len(chk.samples) < 4:
             chk.sample(dict(stream_cells=sch["cells"], schedule=sch["hist"], version=R.VNAME[r["sc"]["conns"][0]["ver"]],
@@ -222,7 +244,7 @@ def run(chk):
                 kf = None
                 r["why"] += " -- and the records were NOT handed on in the order the model predicts for the known finding"
             chk.violation(r["why"], dict(scenario=r["sc"], why=r["why"], kf_steps=r["kf"]), kf_key=kf)
-        if r["events"]:
+        if r["events"] and len(r["events"]) <= 400:       # (the byte-by-byte streams of 4b are judged end to end only: TraceReasm's Covered is recursive)
             traces.append(dict(framing=r["framing"], events=r["events"], kf=bool(r["kf"])))
     # 5. trace validation of the hook events against the contract
     from harness.tracecheck import validate_reasm
